@@ -704,6 +704,132 @@ def coalesce(triangles):
 '''
 
 
+# ---- sound local rewrites towards the reference shape (harmless maintainer rewrites) ---------------------
+# G1  d = {} ; ... d.setdefault(K, []).append(X) ...   ==   d = defaultdict(list) ; ... d[K].append(X) ...
+#     when `d` is assigned once and otherwise only used as `d.setdefault(K, []).append(X)` statements and
+#     `d.items()/.values()/.keys()` calls (both forms create the list on first use and append to the stored list).
+# G2  name = <pure expression> inside a block, the name only read later in that block   ==   substitution.
+# G3  [f(a, b) for a, b in xs]  ==  [f(*p) for p in xs]  when f is a module-level function with exactly those
+#     positional parameters (both unpack each element of xs into f's parameters; xs are join's 2-tuples).
+def _parents(fn):
+    par = {}
+    for n in ast.walk(fn):
+        for c in ast.iter_child_nodes(n):
+            par[id(c)] = n
+    return par
+
+
+def _rewrite_grouping_dicts(fn):
+    par = _parents(fn)
+    cands = [st for st in ast.walk(fn) if isinstance(st, ast.Assign) and len(st.targets) == 1
+             and isinstance(st.targets[0], ast.Name)
+             and ((isinstance(st.value, ast.Dict) and not st.value.keys)
+                  or (isinstance(st.value, ast.Call) and src(st.value) == "dict()"))]
+    for st in cands:
+        d = st.targets[0].id
+        uses = [n for n in ast.walk(fn) if isinstance(n, ast.Name) and n.id == d]
+        if sum(isinstance(n.ctx, ast.Store) for n in uses) != 1:
+            continue
+        appends, ok = [], True
+        for n in uses:
+            if isinstance(n.ctx, ast.Store):
+                continue
+            a = par.get(id(n))                                   # d.<attr>
+            c = par.get(id(a)) if a is not None else None        # d.<attr>(...)
+            if not (isinstance(a, ast.Attribute) and a.value is n and isinstance(c, ast.Call) and c.func is a):
+                ok = False
+                break
+            if a.attr in ("items", "values", "keys") and not c.args and not c.keywords:
+                continue
+            a2 = par.get(id(c))                                  # d.setdefault(K, []).append
+            c2 = par.get(id(a2)) if a2 is not None else None     # ....append(X)
+            e = par.get(id(c2)) if c2 is not None else None      # statement
+            if (a.attr == "setdefault" and len(c.args) == 2 and not c.keywords and isinstance(c.args[1], ast.List)
+                    and not c.args[1].elts and isinstance(a2, ast.Attribute) and a2.attr == "append" and a2.value is c
+                    and isinstance(c2, ast.Call) and c2.func is a2 and len(c2.args) == 1 and not c2.keywords
+                    and isinstance(e, ast.Expr)):
+                appends.append((c, a2))
+                continue
+            ok = False
+            break
+        if not ok or not appends:
+            continue
+        st.value = ast.parse("defaultdict(list)", mode="eval").body
+        for c, a2 in appends:
+            a2.value = ast.Subscript(value=ast.Name(id=d, ctx=ast.Load()), slice=c.args[0], ctx=ast.Load())
+    return fn
+
+
+def _inline_block_temporaries(fn):
+    stores = {}
+    for n in ast.walk(fn):
+        if isinstance(n, ast.Name) and isinstance(n.ctx, ast.Store):
+            stores[n.id] = stores.get(n.id, 0) + 1
+    for a in ast.walk(fn):
+        if isinstance(a, ast.arg):
+            stores[a.arg] = stores.get(a.arg, 0) + 1
+
+    def do_block(block):
+        i = 0
+        while i < len(block):
+            st = block[i]
+            if (isinstance(st, ast.Assign) and len(st.targets) == 1 and isinstance(st.targets[0], ast.Name)
+                    and stores.get(st.targets[0].id) == 1 and isinstance(st.value, ast.Tuple)):
+                name = st.targets[0].id
+                try:
+                    nz.check_pure(st.value)
+                except nz.NotReducible:
+                    i += 1
+                    continue
+                rest = block[i + 1:]
+                inside = sum(1 for r in rest for n in ast.walk(r) if isinstance(n, ast.Name) and n.id == name)
+                total = sum(1 for n in ast.walk(fn) if isinstance(n, ast.Name) and n.id == name) - 1
+                # only read later in this very block, and nothing in between rebinds what the expression reads
+                read = {n.id for n in ast.walk(st.value) if isinstance(n, ast.Name)}
+                rebinds = any(isinstance(n, ast.Name) and isinstance(n.ctx, ast.Store) and n.id in read
+                              for r in rest for n in ast.walk(r))
+                if inside == total and inside > 0 and not rebinds:
+                    block[i + 1:] = [nz._Subst({name: st.value}).visit(r) for r in rest]
+                    del block[i]
+                    continue
+            i += 1
+        for st in block:
+            for f in ("body", "orelse", "finalbody"):
+                b = getattr(st, f, None)
+                if isinstance(b, list) and b and isinstance(b[0], ast.stmt):
+                    do_block(b)
+
+    do_block(fn.body)
+    return fn
+
+
+def _star_calls(fn, module):
+    funcs = {n.name: n for n in module.body if isinstance(n, ast.FunctionDef)}
+    for lc in ast.walk(fn):
+        if not (isinstance(lc, ast.ListComp) and len(lc.generators) == 1 and not lc.generators[0].ifs):
+            continue
+        g = lc.generators[0]
+        if not (isinstance(g.target, ast.Tuple) and all(isinstance(e, ast.Name) for e in g.target.elts)
+                and isinstance(lc.elt, ast.Call) and isinstance(lc.elt.func, ast.Name) and not lc.elt.keywords):
+            continue
+        names = [e.id for e in g.target.elts]
+        f = funcs.get(lc.elt.func.id)
+        if f is None or nz._plain_params(f) is None or len(nz._plain_params(f)) != len(names):
+            continue
+        if [src(a) for a in lc.elt.args] != names:
+            continue
+        v = "_".join(names)
+        g.target = ast.Name(id=v, ctx=ast.Store())
+        lc.elt.args = [ast.Starred(value=ast.Name(id=v, ctx=ast.Load()), ctx=ast.Load())]
+    return fn
+
+
+def canonical_grouping(fn, module):
+    fn = _star_calls(_inline_block_temporaries(_rewrite_grouping_dicts(fn)), module)
+    ast.fix_missing_locations(fn)
+    return ast.parse(ast.unparse(fn)).body[0]      # consistent positions for the node ordering used below
+
+
 def _merge_pair_nodes(fn):
     calls = [n for n in ast.walk(fn) if isinstance(n, ast.Call) and isinstance(n.func, ast.Attribute)
              and n.func.attr == "replace"]
@@ -723,7 +849,7 @@ def _coalesce_nodes(fn):
 
 
 def translate_merge(tree):
-    fn = find_def(tree, "merge")
+    fn = canonical_grouping(find_def(tree, "merge"), tree)
     same_skeleton("merge", fn, [], REF_MERGE, lambda f: [])
     fp = find_def(tree, "_merge_cell_pair")
     params = [a.arg for a in fp.args.args]
@@ -748,7 +874,7 @@ def translate_merge(tree):
     left_first = order == [0, 1]
     base_left = params.index(call.func.value.id) == 0
     same_skeleton("_merge_cell_pair", fp, [call], REF_MERGE_PAIR, _merge_pair_nodes)
-    fc = find_def(tree, "coalesce")
+    fc = canonical_grouping(find_def(tree, "coalesce"), tree)
     keyt, pick = _coalesce_nodes(fc)
     # the loop variable holding the cell
     loops = [n for n in ast.walk(fc) if isinstance(n, ast.For)]
